@@ -345,3 +345,214 @@ static Json genVpscPlan(const std::string &prop, uint64_t seed, const std::strin
     return p;
 }
 static GenRegistrar g1("C01", genVpscPlan), g2("C02", genVpscPlan);
+
+// =====================================================================
+// overlap-removal session (C09; digest feeds C20)
+// =====================================================================
+struct OverlapSession : Session {
+    vpsc::Rectangles rs;
+    std::vector<double> W, H;
+    void checkSizes(const char *after) {
+        for (size_t i = 0; i < rs.size(); i++)
+            if (std::fabs(rs[i]->width() - W[i]) > 1e-9 || std::fabs(rs[i]->height() - H[i]) > 1e-9) {
+                violate("C09", "size", std::string("size-changed-by-") + after, fmt("rect %zu: %gx%g -> %gx%g", i, W[i], H[i], rs[i]->width(), rs[i]->height()));
+                break;
+            }
+    }
+    static bool overlapPos(const vpsc::Rectangle *a, const vpsc::Rectangle *b, double tol, double *ox = nullptr, double *oy = nullptr) {
+        double x = std::min(a->getMaxX(), b->getMaxX()) - std::max(a->getMinX(), b->getMinX());
+        double y = std::min(a->getMaxY(), b->getMaxY()) - std::max(a->getMinY(), b->getMinY());
+        if (ox) *ox = x; if (oy) *oy = y;
+        return x > tol && y > tol;
+    }
+    void run() override {
+        const Json &cfg = spec["cfg"];
+        {
+            LibScope ls;
+            for (auto &rj : cfg["rects"].a) {
+                double x = rj[0].num(), y = rj[1].num(), wd = rj[2].num(), h = rj[3].num();
+                rs.push_back(new vpsc::Rectangle(x, x + wd, y, y + h));
+                W.push_back(wd); H.push_back(h);
+            }
+        }
+        int n = (int)rs.size();
+        const Json &ops = spec["ops"];
+        for (size_t oi = 0; oi < ops.size(); oi++) {
+            curOp = (int)oi;
+            const Json &op = ops[oi];
+            std::string o = op.str("op", "");
+            w->log.ev(o.c_str(), id, (long)oi);
+            if (o == "move") {
+                for (auto &mj : op["set"].a) { int i = (int)mj[0].i(); if (i < n) { rs[i]->moveCentreX(mj[1].num()); rs[i]->moveCentreY(mj[2].num()); } }
+            } else if (o == "removeoverlaps") {
+                std::set<unsigned> fixed;
+                for (auto &fj : op["fixed"].a) if (fj.i() < n) fixed.insert((unsigned)fj.i());
+                // fixed rectangles must not overlap one another, else the request is unsatisfiable
+                for (auto i = fixed.begin(); i != fixed.end();) {
+                    bool ov = false;
+                    for (auto j : fixed) if (j < *i && overlapPos(rs[*i], rs[j], 0)) ov = true;
+                    if (ov) i = fixed.erase(i); else ++i;
+                }
+                bool third = op.boolean("third", false);
+                std::vector<double> X0(n), Y0(n);
+                bool hadOverlap = false, ties = false;
+                for (int i = 0; i < n; i++) { X0[i] = rs[i]->getCentreX(); Y0[i] = rs[i]->getCentreY(); }
+                for (int i = 0; i < n; i++) for (int j = i + 1; j < n; j++) { if (overlapPos(rs[i], rs[j], 1e-9)) hadOverlap = true; if (X0[i] == X0[j] || Y0[i] == Y0[j]) ties = true; }
+                double bx = vpsc::Rectangle::xBorder, by = vpsc::Rectangle::yBorder;
+                std::string ex;
+                try {
+                    LibScope ls;
+                    int mode = (int)op.i("api", 0);
+                    if (mode == 1 && fixed.empty() && !third) vpsc::removeoverlaps(rs);
+                    else if (mode == 2 && !third) vpsc::removeoverlaps(rs, fixed);
+                    else vpsc::removeoverlaps(rs, fixed, third);
+                } catch (vpsc::CriticalFailure &f) { HarnessScope hs; ex = fmt("assert@%s:%d", strstr(f.file, "lib") ? strstr(f.file, "lib") : f.file, f.line); }
+                catch (vpsc::UnsatisfiedConstraint &) { ex = "UnsatisfiedConstraint"; }
+                catch (...) { ex = "exception"; }
+                if (hadOverlap) probe("overlap.had-overlap");
+                if (ties) probe("overlap.scanline-ties");
+                if (!fixed.empty()) probe("overlap.with-fixed");
+                if (third) probe("overlap.third-pass");
+                if (vpsc::Rectangle::xBorder != bx || vpsc::Rectangle::yBorder != by) {
+                    violate("C09", "borders", ex.empty() ? "borders-not-restored" : "borders-not-restored-after-" + ex, fmt("x %g->%g y %g->%g", bx, vpsc::Rectangle::xBorder, by, vpsc::Rectangle::yBorder));
+                    vpsc::Rectangle::setXBorder(bx); vpsc::Rectangle::setYBorder(by);
+                }
+                if (!ex.empty()) {
+                    w->fault("exception");
+                    if (ex.rfind("assert@", 0) == 0) { probe(ex.c_str()); violate("C15", "assert", ex, "removeoverlaps"); }
+                    violate("C09", "threw", "removeoverlaps-threw:" + ex, "");
+                    continue;
+                }
+                checkSizes("removeoverlaps");
+                double avg = 0; for (int i = 0; i < n; i++) avg += (W[i] + H[i]) / 2; avg /= std::max(n, 1);
+                for (auto i : fixed) {
+                    double d = std::hypot(rs[i]->getCentreX() - X0[i], rs[i]->getCentreY() - Y0[i]);
+                    if (d > 0.01 * avg) {
+                        // classifier: "fixed" is a weight of 10000, so by force balance a single fixed rectangle moves at most
+                        // (sum of the free rectangles' displacements)/10000 per axis; more than that is a different defect
+                        double sx = 0, sy = 0;
+                        for (int k = 0; k < n; k++) if (!fixed.count(k)) { sx += std::fabs(rs[k]->getCentreX() - X0[k]); sy += std::fabs(rs[k]->getCentreY() - Y0[k]); }
+                        bool soft = std::fabs(rs[i]->getCentreX() - X0[i]) <= 1.05 * sx / 10000 + 1e-9 && std::fabs(rs[i]->getCentreY() - Y0[i]) <= 1.05 * sy / 10000 + 1e-9;
+                        violate("C09", "fixed", fixed.size() >= 2 ? "fixed-moved:>=2-fixed" : soft ? "fixed-moved:1-fixed:within-soft-weight-bound" : "fixed-moved:1-fixed",
+                                fmt("rect %u moved %g (avg size %g, %zu fixed, free displacement sum %g,%g)", i, d, avg, fixed.size(), sx, sy));
+                        break;
+                    }
+                }
+                bool bad = false;
+                for (int i = 0; i < n && !bad; i++) for (int j = i + 1; j < n && !bad; j++) {
+                    double ox, oy;
+                    if (overlapPos(rs[i], rs[j], 1e-6, &ox, &oy)) { bad = true; violate("C09", "overlap", fixed.size() >= 2 ? "overlap-left:>=2-fixed" : "overlap-left", fmt("rects %d,%d overlap %g x %g (n=%d third=%d fixed=%zu)", i, j, ox, oy, n, (int)third, fixed.size())); }
+                }
+                std::vector<double> out;
+                for (int i = 0; i < n; i++) { out.push_back(rs[i]->getCentreX()); out.push_back(rs[i]->getCentreY()); }
+                record(out, true);
+            } else if (o == "gencons") {
+                bool dimX = op.str("dim", "x") == "x";
+                vpsc::Variables vars; vpsc::Constraints cons;
+                std::string ex;
+                try {
+                    LibScope ls;
+                    for (int i = 0; i < n; i++) vars.push_back(new vpsc::Variable(i, 0, 1));
+                    if (dimX) vpsc::generateXConstraints(rs, vars, cons, false);
+                    else vpsc::generateYConstraints(rs, vars, cons);
+                } catch (...) { ex = "exception"; }
+                if (ex.empty()) {
+                    probe(dimX ? "overlap.genX" : "overlap.genY");
+                    QProb q;
+                    for (int i = 0; i < n; i++) { q.d.push_back(op["desired"][(size_t)i].num(dimX ? rs[i]->getCentreX() : rs[i]->getCentreY())); q.w.push_back(1); q.s.push_back(1); }
+                    for (auto c : cons) q.cs.push_back(QCon{(int)c->left->id, (int)c->right->id, c->gap, c->equality});
+                    for (auto c : cons) { w->log.mixv((uint64_t)c->left->id * 1000 + c->right->id); w->log.d(c->gap); }
+                    if (!qpFeasible(q)) violate("C09", "acyclic", dimX ? "genX-cyclic" : "genY-cyclic", fmt("%zu constraints", cons.size()));
+                    else {
+                        std::vector<double> x; std::vector<bool> skip(q.cs.size(), false);
+                        if (qpSolve(q, x, skip, 100000)) {
+                            // apply the projected placement in this dimension to copies and test all pairs
+                            bool bad = false;
+                            for (int i = 0; i < n && !bad; i++) for (int j = i + 1; j < n && !bad; j++) {
+                                double loi = dimX ? x[i] - W[i] / 2 : rs[i]->getMinX(), hii = dimX ? x[i] + W[i] / 2 : rs[i]->getMaxX();
+                                double loj = dimX ? x[j] - W[j] / 2 : rs[j]->getMinX(), hij = dimX ? x[j] + W[j] / 2 : rs[j]->getMaxX();
+                                double loi2 = dimX ? rs[i]->getMinY() : x[i] - H[i] / 2, hii2 = dimX ? rs[i]->getMaxY() : x[i] + H[i] / 2;
+                                double loj2 = dimX ? rs[j]->getMinY() : x[j] - H[j] / 2, hij2 = dimX ? rs[j]->getMaxY() : x[j] + H[j] / 2;
+                                double o1 = std::min(hii, hij) - std::max(loi, loj), o2 = std::min(hii2, hij2) - std::max(loi2, loj2);
+                                if (o1 > 1e-6 && o2 > 1e-6) { bad = true; violate("C09", "constraints-imply-no-overlap", dimX ? "genX-placement-overlaps" : "genY-placement-overlaps", fmt("rects %d,%d overlap %g x %g under a placement satisfying all %zu generated constraints", i, j, o1, o2, cons.size())); }
+                            }
+                            probe("overlap.projection-checked");
+                        }
+                    }
+                }
+                { LibScope ls; for (auto c : cons) delete c; for (auto v : vars) delete v; }
+            }
+            yield("op");
+        }
+        curOp = -1;
+        { LibScope ls; for (auto r : rs) delete r; rs.clear(); }
+    }
+};
+static Session *mkOverlap() { return new OverlapSession(); }
+static SessionRegistrar r3("overlap", mkOverlap);
+
+Json genOverlapSession(Rng &r, const std::string &tier) {
+    Json s = Json::obj(); s.set("kind", "overlap");
+    bool large = tier == "thorough" && r.chance(0.15);
+    int n = large ? r.range(30, 200) : r.range(2, 14);
+    int style = (int)r.below(6);
+    Json rects = Json::arr();
+    for (int i = 0; i < n; i++) {
+        double wd, h, x, y;
+        switch (style) {
+        case 0: wd = 10 + r.below(5) * 5; h = 10 + r.below(5) * 5; x = (double)r.below(large ? 300 : 60); y = (double)r.below(large ? 300 : 60); break;     // random
+        case 1: wd = 20; h = 20; x = (double)r.below(3) * 10; y = (double)r.below(3) * 10; break;                                // grid-aligned ties
+        case 2: wd = 20; h = 10; x = 50; y = 50; break;                                                                           // identical
+        case 3: wd = 5 + r.below(30); h = 5 + r.below(30); x = (double)r.below(100) / 3; y = (double)r.below(100) / 3; break;    // fractional
+        case 4: wd = r.chance(0.5) ? 0.001 : 40; h = wd < 1 ? 40 : 0.001; x = (double)r.below(30); y = (double)r.below(30); break; // thin
+        default: { double k = 1 + i; wd = 10 * k; h = 10 * k; x = 100 - 5 * k; y = 100 - 5 * k; }                                  // nested, same centre
+        }
+        Json rj = Json::arr(); rj.push(x); rj.push(y); rj.push(wd); rj.push(h); rects.push(rj);
+    }
+    Json cfg = Json::obj(); cfg.set("rects", rects); cfg.set("style", fmt("style%d", style)); s.set("cfg", cfg);
+    Json ops = Json::arr();
+    int steps = r.range(1, 4);
+    for (int st = 0; st < steps; st++) {
+        if (st > 0 && r.chance(0.7)) {
+            Json o = Json::obj(); o.set("op", "move"); Json sl = Json::arr();
+            int k = r.range(1, std::min(n, 5));
+            for (int j = 0; j < k; j++) { Json e = Json::arr(); e.push((long)r.below(n)); e.push((double)r.below(80)); e.push((double)r.below(80)); sl.push(e); }
+            o.set("set", sl); ops.push(o);
+        }
+        if (r.chance(0.3)) {
+            Json o = Json::obj(); o.set("op", "gencons"); o.set("dim", r.chance(0.5) ? "x" : "y");
+            Json d = Json::arr(); for (int i = 0; i < n; i++) d.push((double)r.below(100)); o.set("desired", d);
+            ops.push(o);
+        }
+        Json o = Json::obj(); o.set("op", "removeoverlaps");
+        Json fx = Json::arr();
+        if (r.chance(0.5)) { int k = r.chance(0.75) ? 1 : r.range(2, 3); for (int j = 0; j < k; j++) fx.push((long)r.below(n)); }
+        o.set("fixed", fx); o.set("third", r.chance(0.5)); o.set("api", (long)r.below(3));
+        ops.push(o);
+    }
+    s.set("ops", ops);
+    return s;
+}
+static Json genOverlapPlan(const std::string &prop, uint64_t seed, const std::string &tier) {
+    Rng r(Rng::mix(seed, "plan"));
+    Json p = planSkeleton(prop, "vpsc", seed, r);
+    Json ss = Json::arr();
+    int ns = r.range(1, 3);
+    for (int i = 0; i < ns; i++) ss.push(r.chance(0.8) ? genOverlapSession(r, tier) : genSolverSession(r, tier));
+    if (ss[0].str("kind", "") != "overlap") ss.a[0] = genOverlapSession(r, tier);
+    p.set("sessions", ss);
+    return p;
+}
+static GenRegistrar g3("C09", genOverlapPlan);
+
+// cross-session invariant: the global borders are at their idle value whenever any task is parked
+static void borderInvariant(World &w, int me) {
+    if (vpsc::Rectangle::xBorder != 0 || vpsc::Rectangle::yBorder != 0) {
+        Violation v; v.prop = "C09"; v.clause = "borders"; v.sig = "border-nonzero-at-yield";
+        v.detail = fmt("xBorder=%g yBorder=%g at a yield of session %d", vpsc::Rectangle::xBorder, vpsc::Rectangle::yBorder, me);
+        v.session = me;
+        if (w.armed("C09")) w.violate(v);
+        vpsc::Rectangle::setXBorder(0); vpsc::Rectangle::setYBorder(0);
+    }
+}
+static YieldInvariantRegistrar yi1(borderInvariant);
